@@ -59,7 +59,7 @@ package datastore
 //@ // for a concurrent transaction that object is the mutex wrapper, so every store access is serialised
 //@ func NewConcurrentTxnFrom -> (r)
 //@   ensures r.Multistore.root == r.txn && hastype(r.txn, *concurrentTxn) && r.id == id
-//@   tags C16
+//@   tags C16 C06
 //@
 //@ // lock discipline of the wrapper: the embedded transaction is only touched with t.mu held, and the
 //@ // lock is released on every path (ghost muHeld; goroutine interleavings themselves are not modelled)
